@@ -226,12 +226,14 @@ CLAIMED = {
                   "must-pass-through and loop-shape rules on the clang CFG",
         text="Decides the 'never lets an exception escape from the per-packet loop' clause and the structural part of "
              "'skips malformed frames, ends cleanly at end of file': (R1) every function installed as pcap callback has an "
-             "empty escape set given what the parsers can throw; (R3) a handler reads the captured bytes itself only under a caplen guard (found and fixed the raw-IP handler); "
+             "empty escape set given what the parsers can throw; (R2) every link type DataLinkType<T> lets the writer announce has a reader arm creating T (found and fixed "
+             "Loopback/DLT_LOOP); (R3) a handler reads the captured bytes itself only under a caplen guard (found and fixed "
+             "the raw-IP handler); "
              "(R4) every handler marks the frame processed on all paths, "
              "next_packet loops only while no packet was produced and the handler ran, a negative pcap result yields a null "
              "packet.",
         note="Byte/timestamp round-trip through PacketWriter/FileSniffer and agreement with libpcap's BPF matcher are "
-             "runtime-value clauses and NOT decided. Link-type table agreement is not decided; libpcap is assumed to call the handler at most once per pcap_loop(...,1,...).",
+             "runtime-value clauses and NOT decided. libpcap is assumed to call the handler at most once per pcap_loop(...,1,...).",
     ),
     "C18": dict(
         category="other",
